@@ -20,7 +20,7 @@ func sameArray(a, b []byte) bool {
 func dataPtr(b []byte) unsafe.Pointer { return *(*unsafe.Pointer)(unsafe.Pointer(&b)) }
 
 func runC10(c *Ctx) {
-	c.res.Rule = "Seal/Open on every path with dst of (len, cap) in {0,1,7,16,17} x {len, len+n-1, len+n, len+n+5}, dst = nil, dst = empty non-nil, dst = in[:0] (in-place) with and without spare capacity, every length class; every call is made twice on the same buffers; key, nonce, aad and the input text are snapshotted and compared afterwards; SM3 Sum(in) with spare capacity; SM2 entry points leave their inputs unchanged; class = (operation, path, dst shape, length class, which part of the contract)"
+	c.res.Rule = "Seal/Open on every path with dst of (len, cap) in {0,1,7,16,17} x {len, len+n-1, len+n, len+n+5}, dst = nil, dst = empty non-nil, dst = in[:0] (in-place) with and without spare capacity, every length class; every call is made twice on the same buffers; the implementation's view (returned bytes, result shares dst's pointer, any byte of key/nonce/aad/input/dst-up-to-capacity changed outside the appended region) is compared three-way with the Go glue run on the Lean slice heap (gcm.sealglue/gcm.openglue) and with the AEAD contract written over the specification (…glue.spec), and with crypto/cipher's generic GCM; failing Opens (tampered, shorter than the tag) and wrong nonce lengths (panic) on the same shapes; SM3 Sum(in) with spare capacity against the specification and the slice model; SM2 entry points leave their inputs unchanged; class = (operation, path, dst shape, length class, variant, call number)"
 	paths := gcmPaths()
 	lens := []int{0, 1, 15, 16, 17, 33, 64, 100, 257, 300}
 	if c.tier == "thorough" {
@@ -220,6 +220,17 @@ func runC10(c *Ctx) {
 			if !bytes.Equal(out1, out2) || !bytes.Equal(in, snap) || (sh.extra >= 32) != sameArray(out1, in) && cap(in) > 0 {
 				c.Disagree(Disagreement{Kind: "impl!=spec", Class: cl + "/append-contract", Request: req, Impl: fmt.Sprintf("%x / %x shares=%v", out1, out2, sameArray(out1, in)), Spec: "equal, in unchanged", Stream: "sm3.sum"})
 			}
+			// the same call on the slice model (append on the heap), in the model's format
+			inFull := in[:cap(in)]
+			same := bytes.Equal(in, snap)
+			shares := dataPtr(out1) == dataPtr(in)
+			for i := len(in); i < len(inFull); i++ {
+				if !(shares && i < len(out1)) && inFull[i] != 0 {
+					same = false // the capacity was zero-filled by make
+				}
+			}
+			view := fmt.Sprintf("ok %s shares=%v inputs=%s again=%s", hx(out1), shares, map[bool]string{true: "unchanged", false: "changed"}[same], map[bool]string{true: "same", false: "different"}[bytes.Equal(out1, out2)])
+			c.CheckModel("sm3.sum", cl+"/slice-model", fmt.Sprintf("sm3.sumglue %s %s %d", hx(msg), hx(in), cap(in)), view)
 		}
 	}
 	// SM2 entry points do not modify their inputs; repeated calls agree
